@@ -126,7 +126,8 @@ def lstep(l, st):
         elif k == "LTrunc":
             if c[0] != "STrunc":
                 return None
-            n.script = "SEmpty"
+            if not FIXED[0]:
+                n.script = "SEmpty"      # pinned code: the script is rewritten in place
             n.scheds[s] = ("SWrite",)
         elif k == "LWrite":
             if c[0] != "SWrite":
